@@ -13,6 +13,9 @@
 //          b <beforeid|-> <id> rbtree_order::insert(before, node id)
 //          r <id>              remove(node id)
 // In `hash` mode the state line is replaced by its 64-bit FNV-1a digest (large trees).
+#include <csignal>
+#include <unistd.h>
+#include <sys/time.h>
 #include <memory>
 #include <string>
 #include <vector>
@@ -198,13 +201,27 @@ static void run_tree(const vh::Lines &ls, int P, bool hashmode, bool cmp, int ev
 			if(every <= 1 || li % (size_t)every == 0 || li + 1 == ls.size()) {
 				dump(tr, pool.get(), P, hashmode);
 				check_tree(tr, pool.get(), P, ref, cmp);
+				// the structure is corrupt: further operations on it may not terminate; the case has failed already
+				if(vh::g_oracle_count > 0) { printf("stopped\n"); return; }
 			}
 		}
 	}
 }
 
+static void on_alarm(int) {
+	static const char msg[] = "[timeout] operation on the tree did not terminate within the per-case limit\n";
+	(void)!write(2, msg, sizeof msg - 1);
+	_exit(96);
+}
+
 static void body(const vh::Lines &ls) {
 	if(ls.empty()) return;
+	// watchdog on CPU time (not wall time, so machine load cannot trip it): a corrupted tree can make
+	// insert()/first()/fix_remove() loop forever.  A small case needs milliseconds.
+	signal(SIGPROF, on_alarm);
+	struct itimerval tv = {};
+	tv.it_value.tv_sec = ls.size() > 500 ? 150 : 3;
+	setitimer(ITIMER_PROF, &tv, nullptr);
 	auto t = vh::split(ls[0]);
 	if((t.size() != 4 && t.size() != 5) || t[0] != "cfg") { printf("badcfg\n"); return; }
 	int every = t.size() == 5 ? atoi(t[4].c_str()) : 1;
